@@ -212,6 +212,10 @@ def _grid_plan(check, seed, run, engine, entry_pred, solvers, degen_rate=0.1, va
     # the grid supplies the budgets; make the tolerance small so that stopping points differ
     if rng.random() < 0.7:
         knobs["tol"] = float(G.sig3(_gscale(prob) * 10.0 ** (-int(rng.integers(6, 11))), 3))
+    if solver == "FISTA" and check == "C17" and rng.random() < 0.5:
+        # a tolerance loose enough to be met within the dense part of the budget grid: stopping
+        # on the tolerance after k iterations is then itself a crash point the grid resolves
+        knobs["tol"] = float(G.sig3(_gscale(prob) * choice(rng, [0.3, 0.1, 0.03]), 3))
     st, w0 = _start(rng, prob)
     fault_rate = choice(rng, [0.0, 0.6, 1.0], p=[.35, .4, .25])
     ops = [dict(op="grid", start=st, w0=w0, knobs=knobs, faults=G.gen_faults(rng, solver, fault_rate),
